@@ -35,7 +35,8 @@ def run_one(module, fn, timeout_s):
     except subprocess.TimeoutExpired:
         out = 'timeout'
     dt = time.time() - t0
-    m = re.search(r'error: (.*?) when calling (\w+\(.*\))(?: \(which (?:returns|raises) .*\))?\s*$', out, flags=re.M)
+    # the call text ends before CrossHair's own trailer "(which returns …)" / "(which raises …)"
+    m = re.search(r'error: (.*?) when calling (\w+\(.*?\))(?: \(which (?:returns|raises) .*\))?\s*$', out, flags=re.M)
     if 'Confirmed over all paths' in out:
         return dict(fn=fn, verdict='unsat', wall_s=dt, out=out[-300:])
     if m:
@@ -47,7 +48,13 @@ def replay_call(module, call):
     """evaluates the printed counterexample call on the real code; reproduced if the postcondition is false or it raises"""
     mod = importlib.import_module(module)
     try:
-        r = eval(call, dict(vars(mod)))      # noqa: S307  (text produced by our own CrossHair run)
+        code = compile(call, '<crosshair counterexample>', 'eval')
+    except SyntaxError as e:
+        return False, f'counterexample text {call!r} is not a call that can be evaluated ({e.msg})'
+    try:
+        r = eval(code, dict(vars(mod)))      # noqa: S307  (text produced by our own CrossHair run)
+    except NameError as e:
+        return False, f'{call}: {e}'
     except Exception as e:  # noqa
         return True, f'{call} raises {type(e).__name__}: {e}'
     return (r is False), f'{call} returns {r!r}'
